@@ -36,6 +36,30 @@ def whole_stack_finds(rng, n):
     ae_mod = R.applicationentity
     sc, statuses = K.sopclass, K.statuses
     out = []
+    from . import lifetap
+    tap = lifetap.LifeTap()
+    nets = []
+    tap.__enter__()
+    try:
+        _whole_stack_finds(rng, n, out, nets, R, S, ae_mod, sc, statuses)
+    finally:
+        tap.__exit__(None, None, None)
+    # every association of these runs (the querying one and the bystander) on its own against AssocLife.tla: each
+    # response is bound by its content token from the provider's send() over the wire to the user's receive()
+    obs = [o for net in nets for o in tap.cases(net) if o['library_acceptor']]
+    lres, lstats = lifetap.validate(obs)
+    life = []
+    for o, r in zip(obs, lres):
+        if not r[0]:
+            life.append('%s (matched %d of %d): requesting thread %s | accepting thread %s | requestor wrote %s | acceptor wrote %s' % (
+                ', '.join(r[1]) or 'no behaviour of AssocLife explains the observation', r[2], r[3],
+                [(e['ev'], e.get('res'), e.get('f')) for e in o['rq']][:20], [(e['ev'], e.get('res'), e.get('f')) for e in o['ac']][:20],
+                [(x['k'], x['f']) for x in o['r2a']][:20], [(x['k'], x['f']) for x in o['a2r']][:20]))
+    return out, life, len(obs), lstats
+
+
+def _whole_stack_finds(rng, n, out, nets, R, S, ae_mod, sc, statuses):
+    import pydicom
     for k in range(n):
         nm = rng.choice([3, 5])
         matches = []
@@ -86,9 +110,9 @@ def whole_stack_finds(rng, n):
                 extra['raised'] = 'whole-stack C-FIND with batched delivery raised %s: %s after %d of %d responses' % (
                     type(exc).__name__, exc, len(tr) - 1, len(wire))
             net.wait_all(30)
+            nets.append(net)
         tr.append({'ev': 'End', 'sent': 1, 'drained': 1})
         out.append((tr, extra, {'svc': 'qr_find_scu', 'whole_stack': True, 'matches': nm, 'batched_delivery_s': 0.25}))
-    return out
 
 
 def main(tier='quick'):
@@ -164,8 +188,11 @@ def main(tier='quick'):
             add(tr, extra, meta)
     # whole stack: real provider threads on both sides, the provider's responses reach the user in batches (several
     # P-DATA-TF PDUs per segment), small maximum PDU length -> every response spans many PDUs
-    for tr, extra, meta in whole_stack_finds(rng, 4 if tier == 'quick' else 18):
+    ws, life, n_life, lstats = whole_stack_finds(rng, 4 if tier == 'quick' else 18)
+    for tr, extra, meta in ws:
         add(tr, extra, meta)
+    for txt in life:
+        v.report({'site': 'whole-stack', 'clause': 'association-is-a-behaviour-of-the-life-cycle-model-on-its-own'}, txt)
     res, stats = tlc.validate_traces('Trace_Services', 'Trace_Services.cfg', traces, chunk=5000)
     for tr, r, meta in zip(traces, res, metas):
         if r['ok']:
@@ -178,7 +205,8 @@ def main(tier='quick'):
                  '%s: event %d %r is not allowed by Services.tla; %r' % (meta['svc'], r['reached'], e, meta), replay=meta)
     ev = {'tier': tier, 'level': 'model_checking',
           'coverage': {'states': fresh.distinct + reuse.distinct, 'transitions': fresh.generated + reuse.generated,
-                       'traces_validated_against_impl': len(traces), 'result_sequences': len(seqs),
+                       'traces_validated_against_impl': len(traces) + n_life, 'associations_validated_against_AssocLife': n_life,
+                       'life_cycle_validation_states': lstats['states'], 'result_sequences': len(seqs),
                        'schedules': [str(p) for p in POLICIES], 'samples': [traces[3], traces[-1][:4]], 'exhaustive': False},
           'assumptions': ['the c_find convenience wrapper is exercised over real sockets under C20/C15 (it needs a listening peer)']}
     return v.finish(ev)
